@@ -47,6 +47,8 @@ func c06Gen(r *gen.Rng, tier string, idx int) interface{} {
 	if r.Chance(1, 8) {
 		p := r.Range(4, 6)
 		c.CNF, c.N = gen.Pigeonhole(p+1, p)
+	} else if r.Chance(1, 8) { // wide nested clauses: learned clauses of up to 160 literals
+		c.CNF, c.N = gen.Ladder(r, r.Range(10, 160))
 	} else {
 		c.CNF = gen.Random3SAT(r, c.N, 3, r.Range(400, 480))
 	}
@@ -92,7 +94,11 @@ func c06Run(ci interface{}, rec *Rec) {
 		return
 	}
 	rec.Count("certified_solves", 1)
+	rec.Max("max_steps_in_one_solve", int(s.VerifSteps()))
 	rec.Count("cert_lines", len(lines))
+	for _, l := range lines {
+		rec.Max("max_certificate_line_literals", len(strings.Fields(l))-1)
+	}
 	rec.Count("conflicts", s.Stats.NbConflicts)
 	rec.Count("deleted", s.Stats.NbDeleted)
 	rec.Count("restarts", s.Stats.NbRestarts)
